@@ -1,13 +1,18 @@
 import Lemmas.FixedTextFloatGo
 import Lemmas.FixedTextCheckedAs
 import Lemmas.FixedTextLink
+import Lemmas.FixedTextExp
+import Lemmas.FixedTextCanon
+import Lemmas.FixedTextAccept
 import Generated.Facts
 /-! # C04 — fixed-point values print canonically and parse back to the identical value
 
 Property theorems only.  The executable model is `Model/FixedText.lean` (namespace `FixedText`): `toStr` = `String()`,
 `toStrSign`, `comma`, `commaSign`, `fromStr64` / `fromStr128` = `FromString`, `unmarshal64/128` = `UnmarshalText` /
-`UnmarshalJSON`, `unquote`, `commaNum`, `as64/128`, `checkedAs64/128`; the driver `drv_c04` runs exactly these
-definitions against the Go code for the sixteen configurations of `Facts.fixedConfigs`.  Strings are byte lists
+`UnmarshalJSON`, `unquote`, `commaNum`, `as64/128`, `checkedAs64/128`; `Model/FixedTextExp.lean` resolves the exponent
+branch (`fromStrX64/128`, `unmarshalX64/128`: `strconv.ParseFloat` on every grammar a text with e/E can reach, then the C03
+model of `From[T](float64)`), `Model/FixedTextFloat.lean` is the float branch of `As`/`CheckedAs`; the driver `drv_c04` runs
+exactly these definitions against the Go code for the sixteen configurations of `Facts.fixedConfigs`.  Strings are byte lists
 (45 = '-', 43 = '+', 46 = '.', 44 = ',', 48 = '0', 34 = '"'); a raw value is an `Int`, `fits64` / `fits128` its range.
 `p` is the number of places and the multiplier is `10^p` — `configs_pow10` shows this is what the source's table says. -/
 namespace C04
@@ -587,6 +592,283 @@ theorem as_eq_checkedAs_float_go (bits : Nat) (mult raw : Int) (x : Flt) :
 example : checkedAsF64 64 100 115 = some (GoSem.F64.decode 0x3ff2666666666666) ∧
     checkedAsF128 32 10 1 = some (Fixed.decode32 0x3dcccccd) ∧
     checkedAsF64 64 10 90071992547409930 = none := by decide +kernel
+
+/-! ## FromString of EVERY plain decimal literal (no representability hypothesis)
+
+The clause "returns that number truncated toward zero to D places and never some other number" for literals whose
+truncated value does not fit the machine type: what the code does there is now a theorem instead of a reading —
+f128 returns the nearest end of its range, f64 either rejects the literal (integer part outside int64:
+`strconv.ParseInt` range error) or returns the truncated value reduced modulo 2^64 (the wrap-around of `value *= mult`
+and of `value += fraction - mult`).  The representable case of the previous section is the special case
+`sat128 v = v` / `wrap64 v = v`. -/
+
+/-- **f128, every plain literal**: the truncated value, saturated to the 128-bit range -/
+theorem fromString_literal_all128 (p : Nat) (sg : Sign) (ip : Str) (fo : Option Str) (hl : IsLiteral sg ip fo) :
+    fromStr128 p (10^p) (litText sg ip fo) = .ok (sat128 (litVal p sg ip fo)) :=
+  fromStr128_literal_all p sg ip fo hl
+
+/-- **f64, every plain literal**: rejected when the signed integer part is outside int64, otherwise the truncated value
+    modulo 2^64 -/
+theorem fromString_literal_all64 (p : Nat) (hp : p ≤ 18) (sg : Sign) (ip : Str) (fo : Option Str)
+    (hl : IsLiteral sg ip fo) :
+    fromStr64 p (10^p) (litText sg ip fo) =
+      if ipFits64 sg ip = true then .ok (wrap64 (litVal p sg ip fo)) else .err :=
+  fromStr64_literal_all p hp sg ip fo hl
+
+/-- saturation and reduction are the identity on the range of the type (so the two theorems above contain
+    `fromString_literal64/128`) and land inside it otherwise -/
+theorem sat_wrap_range (v : Int) :
+    (fits128 v = true → sat128 v = v) ∧ (fits64 v = true → wrap64 v = v) ∧
+    fits128 (sat128 v) = true ∧ fits64 (wrap64 v) = true := by
+  refine ⟨fun h => ?_, fun h => ?_, ?_, ?_⟩
+  · simp only [fits128, Bool.and_eq_true, decide_eq_true_eq] at h
+    unfold sat128; split <;> split <;> omega
+  · simp only [fits64, Bool.and_eq_true, decide_eq_true_eq] at h
+    unfold wrap64; omega
+  · simp only [fits128, Bool.and_eq_true, decide_eq_true_eq]
+    unfold sat128; split <;> split <;> omega
+  · simp only [fits64, Bool.and_eq_true, decide_eq_true_eq]
+    unfold wrap64; omega
+
+/-- CONTRAST (why the hypothesis of `fromString_literal64` cannot simply be dropped): with one place,
+    "922337203685477580.8" (= 2^63/10) is a plain literal whose truncated value 2^63 does not fit; f64 answers the
+    OTHER number −2^63, f128 the number itself; "9223372036854775808" is rejected by f64 and parsed by f128 -/
+example : fromStr64 1 10 (natStr 922337203685477580 ++ [46, 56]) = .ok (-(2^63)) ∧
+    fromStr128 1 10 (natStr 922337203685477580 ++ [46, 56]) = .ok (2^63) ∧
+    fromStr64 1 10 (natStr (2^63)) = .err ∧ fromStr128 1 10 (natStr (2^63)) = .ok (10 * 2^63) := by decide +kernel
+
+/-! ## every byte string: what the plain branch can return at all
+
+"… and never some other number", without restricting the input to literals.  Whatever bytes are given: if `FromString`
+returns a value through the plain branch, then the text (commas removed) BEGINS with a sign and digits, optionally followed
+by '.' and fraction digits — and only behind the `p`-th fraction digit may anything else follow, which is ignored
+("1.239x" with two places is 1.23) — and the value is the truncated value of exactly that literal (f128: saturated; f64:
+integer part inside int64, value modulo 2^64).  The digit-less texts "", "+", "-", ".", "+.", "-." (after comma removal)
+are the literal with no digits, value 0.  So an accepted text never yields a number unrelated to its digits. -/
+
+/-- **f128: anatomy and value of every accepted text** -/
+theorem fromString_accepts128 (p : Nat) (s : Str) (v : Int) (h : fromStr128 p (10^p) s = .ok v) :
+    ∃ (sg : Sign) (ip : Str) (fo : Option Str) (junk : Str),
+      (∀ c ∈ ip, isDigit c = true) ∧ (∀ fp, fo = some fp → (∀ c ∈ fp, isDigit c = true) ∧ (junk ≠ [] → fp.length = p)) ∧
+      (fo = none → junk = []) ∧ stripCommas s = litText sg ip fo ++ junk ∧ v = sat128 (litVal p sg ip fo) :=
+  fromStr128_accepts p s v h
+
+/-- **f64: anatomy and value of every accepted text** -/
+theorem fromString_accepts64 (p : Nat) (s : Str) (v : Int) (h : fromStr64 p (10^p) s = .ok v) :
+    ∃ (sg : Sign) (ip : Str) (fo : Option Str) (junk : Str),
+      (∀ c ∈ ip, isDigit c = true) ∧ (∀ fp, fo = some fp → (∀ c ∈ fp, isDigit c = true) ∧ (junk ≠ [] → fp.length = p)) ∧
+      (fo = none → junk = []) ∧ stripCommas s = litText sg ip fo ++ junk ∧ ipFits64 sg ip = true ∧
+      v = wrap64 (litVal p sg ip fo) :=
+  fromStr64_accepts p s v h
+
+/-- the ignored tail and the digit-less texts, executed: "1.239x" (two places) is 123, "," and "-." are 0, "1.2x" is
+    rejected (the 'x' stands where a fraction digit counts) -/
+example : fromStr64 2 100 [49, 46, 50, 51, 57, 120] = .ok 123 ∧ fromStr128 2 100 [44] = .ok 0 ∧
+    fromStr64 2 100 [45, 46] = .ok 0 ∧ fromStr128 2 100 [49, 46, 50, 120] = .err := by decide +kernel
+
+/-! ## the exponent branch (`strings.ContainsAny(str, "Ee")` → `strconv.ParseFloat` → `From[T](float64)`)
+
+`fromStrX64` / `fromStrX128` (Model/FixedTextExp.lean) are `FromString` with the outcome `.exp` of the plain model resolved:
+`ParseFloat` as correctly rounded conversion (`GoSem.F64.ofRat`) on every grammar a text with an e/E can reach — decimal
+exponent literals, the same with underscore separators (`strconv.underscoreOK` transcribed), hexadecimal floats (where
+the 'e' is a mantissa digit) — then the C03 model of `From[T](float64)`.  No byte string is left outside the model.  These are the functions the driver runs on every `parse` line.  Exponent literals are not plain
+literals (Appendix B) and the branch is lossy — `exp_branch_is_lossy` — so no truncation claim is made for it; what is
+proved: it agrees with the plain model wherever that decides, it cannot panic, which outcomes each type has, when the
+float → int64 conversion is implementation-defined, and how far the result can be from the literal's value. -/
+
+/-- **the function the driver runs refines the plain model**: a value or an error of the plain model is the outcome of the
+    full function, in both types — every theorem above about `fromStr64/128 … = .ok v` or `= .err` is a theorem about
+    `fromStrX64/128` -/
+theorem fromStringX_refines (p : Nat) (m : Int) (s : Str) :
+    (∀ v, fromStr64 p m s = .ok v → fromStrX64 p m s = .ok v) ∧ (fromStr64 p m s = .err → fromStrX64 p m s = .err) ∧
+    (∀ v, fromStr128 p m s = .ok v → fromStrX128 p m s = .ok v) ∧ (fromStr128 p m s = .err → fromStrX128 p m s = .err) :=
+  ⟨fun _ h => fromStrX64_ok h, fromStrX64_err, fun _ h => fromStrX128_ok h, fromStrX128_err⟩
+
+/-- the round trip, stated for the executed functions: every rendering of every value of both types in every
+    configuration parses back through `FromString` and `UnmarshalText`/`UnmarshalJSON` (bare and quoted) -/
+theorem roundtrip_configsX : ∀ c ∈ Facts.fixedConfigs, ∀ raw : Int,
+    (fits64 raw = true →
+      fromStrX64 c.1 c.2 (toStr c.2 raw) = .ok raw ∧ fromStrX64 c.1 c.2 (toStrSign c.2 raw) = .ok raw ∧
+      fromStrX64 c.1 c.2 (comma c.2 raw) = .ok raw ∧ fromStrX64 c.1 c.2 (commaSign c.2 raw) = .ok raw ∧
+      unmarshalX64 c.1 c.2 (toStr c.2 raw) = .ok raw ∧ unmarshalX64 c.1 c.2 (34 :: (toStr c.2 raw ++ [34])) = .ok raw) ∧
+    (fits128 raw = true →
+      fromStrX128 c.1 c.2 (toStr128 c.2 raw) = .ok raw ∧ fromStrX128 c.1 c.2 (toStrSign c.2 raw) = .ok raw ∧
+      fromStrX128 c.1 c.2 (comma c.2 raw) = .ok raw ∧ fromStrX128 c.1 c.2 (commaSign c.2 raw) = .ok raw ∧
+      unmarshalX128 c.1 c.2 (toStr c.2 raw) = .ok raw ∧ unmarshalX128 c.1 c.2 (34 :: (toStr c.2 raw ++ [34])) = .ok raw) := by
+  intro c hc raw
+  constructor
+  · intro hr
+    obtain ⟨h1, h2, h3, h4, h5, h6⟩ := roundtrip_configs64 c hc raw hr
+    exact ⟨fromStrX64_ok h1, fromStrX64_ok h2, fromStrX64_ok h3, fromStrX64_ok h4,
+      fromStrX64_ok (s := unquote _) h5, fromStrX64_ok (s := unquote _) h6⟩
+  · intro hr
+    obtain ⟨h1, h2, h3, h4, h5, h6⟩ := roundtrip_configs128 c hc raw hr
+    exact ⟨fromStrX128_ok h1, fromStrX128_ok h2, fromStrX128_ok h3, fromStrX128_ok h4,
+      fromStrX128_ok (s := unquote _) h5, fromStrX128_ok (s := unquote _) h6⟩
+
+/-- **no input string makes it panic — the exponent branch included.**  The f128 branch has a panicking operation
+    (`big.Float.SetFloat64` of a NaN, outcome `ResX.panic` of the model); it is unreachable: `ParseFloat` on a text with
+    e/E returns a finite float or an error, never a NaN ("nan" has no e, "nane5" is a syntax error).  Holds for every
+    byte string, every number of places, every multiplier, for `FromString` and `UnmarshalText`/`UnmarshalJSON`. -/
+theorem fromString_never_panics (p : Nat) (m : Int) (s : Str) :
+    fromStrX64 p m s ≠ .panic ∧ fromStrX128 p m s ≠ .panic ∧ unmarshalX64 p m s ≠ .panic ∧ unmarshalX128 p m s ≠ .panic :=
+  ⟨fromStrX64_no_panic p m s, fromStrX128_no_panic p m s, fromStrX64_no_panic p m _, fromStrX128_no_panic p m _⟩
+
+/-- **range of every result, exponent branch included**: whatever the byte string, the places and the multiplier, a value
+    returned by the executed `FromString` lies in the range of its type (f64: the float → int64 conversion is only taken
+    as a value inside int64; f128: `Int128FromBigInt` saturates) -/
+theorem fromStringX_total (p : Nat) (m : Int) (s : Str) (v : Int) :
+    (fromStrX64 p m s = .ok v → fits64 v = true) ∧ (fromStrX128 p m s = .ok v → fits128 v = true) :=
+  ⟨fromStrX64_fits p m s v, fromStrX128_fits p m s v⟩
+
+/-- CONTRAST: the panic is a real possibility of `From[T](float64)` — the f128 conversion of a NaN is the `none` of the C03
+    model; only the shape of the branch (a NaN cannot come out of `ParseFloat` there) keeps it away -/
+example : Fixed.F128.fromFloat 10 1 .nan = none := rfl
+
+/-- **the outcomes of the executed `FromString`, every byte string**: f64 returns a value, an error, or — only in the
+    exponent branch — meets Go's implementation-defined float → int64 conversion; f128 returns a value or an error.
+    There is no fourth possibility: since the hexadecimal and underscore grammars of `ParseFloat` are modelled too, no
+    input is outside the model -/
+theorem fromStringX_outcomes (p : Nat) (m : Int) (s : Str) :
+    ((∃ v, fromStrX64 p m s = .ok v) ∨ fromStrX64 p m s = .err ∨
+      (fromStrX64 p m s = .implDefined ∧ s ≠ [] ∧ hasExp (stripCommas s) = true)) ∧
+    ((∃ v, fromStrX128 p m s = .ok v) ∨ fromStrX128 p m s = .err) := by
+  constructor
+  · cases h : fromStrX64 p m s with
+    | ok v => exact Or.inl ⟨v, rfl⟩
+    | err => exact Or.inr (Or.inl rfl)
+    | panic => exact absurd h (fromStrX64_no_panic p m s)
+    | implDefined =>
+      refine Or.inr (Or.inr ⟨rfl, ?_⟩)
+      apply (fromString_exp_iff p m s).mp
+      cases h2 : fromStr64 p m s with
+      | ok v => rw [fromStrX64_ok h2] at h; cases h
+      | err => rw [fromStrX64_err h2] at h; cases h
+      | exp => rfl
+  · cases h : fromStrX128 p m s with
+    | ok v => exact Or.inl ⟨v, rfl⟩
+    | err => exact Or.inr rfl
+    | panic => exact absurd h (fromStrX128_no_panic p m s)
+    | implDefined => exact absurd h (fromStrX128_no_impl p m s)
+
+/-- **f64, implementation-defined conversion**: `FromString` of an exponent text reaches Go's implementation-defined
+    float → int64 conversion only with a float whose product with the multiplier exceeds 2^62 -/
+theorem exp_implDefined_needs_large : ∀ c ∈ Facts.fixedConfigs, ∀ t : Str, expBranch64 c.2 t = .implDefined →
+    ∃ s mx ex, parseFloatAny t = some (.fin s mx ex) ∧ (2 : ℚ) ^ 62 < (mx : ℚ) * (2 : ℚ) ^ ex * c.2 :=
+  fun c hc t h => expBranch64_impl c.2 ⟨c, hc, rfl⟩ t h
+
+/-- **f64, exponent literal**: for a well-formed literal `±N·10^(E−k)` of normal float magnitude, a defined result lies
+    within `1 + |value·mult| / 2^51` of the exact scaled value `±N·10^(E−k)·mult` -/
+theorem exp_literal_bound64 : ∀ c ∈ Facts.fixedConfigs, ∀ (t : Str) (neg : Bool) (N k : Nat) (E : Int) (r : Int),
+    outsideExp t = false → parseExpLit? t = some (neg, N, k, E) → N ≠ 0 →
+    (2 : ℚ) ^ (-1022 : ℤ) ≤ (N : ℚ) * (10 : ℚ) ^ (E - k) → (N : ℚ) * (10 : ℚ) ^ (E - k) < (2 : ℚ) ^ (1023 : ℤ) →
+    expBranch64 c.2 t = .ok r →
+    |(r : ℚ) - expRat neg N k E * c.2| < 1 + (N : ℚ) * (10 : ℚ) ^ (E - k) * c.2 / 2 ^ 51 :=
+  fun c hc t neg N k E r ho hl hN hlo hhi h => expBranch64_val c.2 ⟨c, hc, rfl⟩ t neg N k E r ho hl hN hlo hhi h
+
+/-- **f128, exponent literal**: an unsaturated result, read as a number, lies within 19/20 of a raw unit plus the
+    `ParseFloat` rounding (relative 2^-53) of the exact value -/
+theorem exp_literal_bound128 : ∀ c ∈ Facts.fixedConfigs, ∀ (t : Str) (neg : Bool) (N k : Nat) (E : Int) (r : Int),
+    outsideExp t = false → parseExpLit? t = some (neg, N, k, E) → N ≠ 0 →
+    (2 : ℚ) ^ (-1022 : ℤ) ≤ (N : ℚ) * (10 : ℚ) ^ (E - k) → (N : ℚ) * (10 : ℚ) ^ (E - k) < (2 : ℚ) ^ (1023 : ℤ) →
+    expBranch128 c.1 c.2 t = .ok r → Fixed.F128.minRaw < r → r < Fixed.F128.maxRaw →
+    |Fixed.Rat.value c.2 r - expRat neg N k E| ≤ 19 / 20 / (c.2 : ℚ) + (N : ℚ) * (10 : ℚ) ^ (E - k) / 2 ^ 53 :=
+  fun c hc t neg N k E r ho hl hN hlo hhi h h1 h2 => expBranch128_val c hc t neg N k E r ho hl hN hlo hhi h h1 h2
+
+/-- zero mantissa (`0e5`, `-0.00E-7`, `+0e99999`): the value 0 in both types, every configuration -/
+theorem exp_literal_zero : ∀ c ∈ Facts.fixedConfigs, ∀ (t : Str) (neg : Bool) (k : Nat) (E : Int),
+    parseExpLit? t = some (neg, 0, k, E) → outsideExp t = false →
+    expBranch64 c.2 t = .ok 0 ∧ expBranch128 c.1 c.2 t = .ok 0 :=
+  fun c hc t neg k E hl ho => expBranch_zero c hc t neg k E hl ho
+
+/-- non-vacuity of the literal hypotheses: "1.5e3" reads as N = 15, k = 1, E = 3 and gives 1500 (raw 150000 with two
+    places) in both types; "-0e5" has a zero mantissa -/
+example : parseExpLit? [49, 46, 53, 101, 51] = some (false, 15, 1, 3) ∧
+    fromStrX64 2 100 [49, 46, 53, 101, 51] = .ok 150000 ∧ fromStrX128 2 100 [49, 46, 53, 101, 51] = .ok 150000 ∧
+    parseExpLit? [45, 48, 101, 53] = some (true, 0, 0, 5) := by decide +kernel
+
+/-- the other two grammars of `ParseFloat`, executed: "1_0e1" (underscore between digits) is 100, "1_e1" and "_1e1" are
+    syntax errors; "0x1ep3" is the hexadecimal float 0x1e·2^3 = 240 (the 'e' is a digit), "0xe" lacks the mandatory
+    exponent -/
+example : fromStrX64 2 100 [49, 95, 48, 101, 49] = .ok 10000 ∧ fromStrX128 2 100 [49, 95, 101, 49] = .err ∧
+    fromStrX64 2 100 [95, 49, 101, 49] = .err ∧ fromStrX128 2 100 [48, 120, 49, 101, 112, 51] = .ok 24000 ∧
+    fromStrX64 2 100 [48, 120, 101] = .err := by decide +kernel
+
+/-- **the branch is lossy (why no truncation claim is made for it)**: with two places "0.29e0" gives the raw value 28 in
+    f64 — the float product 0.29·100 is 28.999999999999996 — while the plain literal "0.29" gives 29, and f128 gives 29
+    for both; "1e19" (one place) reaches the implementation-defined conversion in f64 and is the value 10^19 in f128 -/
+theorem exp_branch_is_lossy :
+    fromStrX64 2 100 [48, 46, 50, 57, 101, 48] = .ok 28 ∧ fromStrX64 2 100 [48, 46, 50, 57] = .ok 29 ∧
+    fromStrX128 2 100 [48, 46, 50, 57, 101, 48] = .ok 29 ∧
+    fromStrX64 1 10 [49, 101, 49, 57] = .implDefined ∧ fromStrX128 1 10 [49, 101, 49, 57] = .ok (10^20) := by
+  decide +kernel
+
+/-! ## canonical means unique: equal texts, equal values -/
+
+/-- `String()` is injective on each type: two values with the same text are the same value (so is every other rendering:
+    each determines `String()` by removing '+' and ',') -/
+theorem toString_injective (p : Nat) (hp : p ≤ 18) (a b : Int) (h : toStr (10^p) a = toStr (10^p) b) :
+    (fits64 a = true → fits64 b = true → a = b) ∧ (fits128 a = true → fits128 b = true → a = b) := by
+  constructor
+  · intro ha hb
+    have h1 := fromString_toString64 p hp a ha
+    have h2 := fromString_toString64 p hp b hb
+    rw [h, h2] at h1
+    exact (Res.ok.inj h1).symm
+  · intro ha hb
+    have h1 := fromString_toString128 p a ha
+    have h2 := fromString_toString128 p b hb
+    rw [h, h2] at h1
+    exact (Res.ok.inj h1).symm
+
+/-! ## txt.Comma of an integer (`fmt.Sprintf("%v")`, then `CommaFromStringNum`) -/
+
+/-- `txt.Comma(z)` of an integer only adds separators to the decimal text of `z`, in front of groups of three digits
+    counted from the right (`commaBody`), the sign stays in front -/
+theorem comma_int (z : Int) :
+    commaNum (intStr z) = (if z < 0 then [45] else []) ++ commaBody (natStr z.natAbs) ∧
+    stripCommas (commaNum (intStr z)) = intStr z := by
+  have hd := natStr_digits z.natAbs
+  have hne := natStr_ne_nil z.natAbs
+  have h44 : ∀ c ∈ natStr z.natAbs, c ≠ 44 := fun c hc => by have := isDigit_bounds c (hd c hc); omega
+  have hev := commaNum_eval (decide (z < 0)) (natStr z.natAbs) [] hd hne (by simp)
+  simp only [if_true, List.append_nil, decide_eq_true_eq] at hev
+  have hint : intStr z = (if z < 0 then [45] else []) ++ natStr z.natAbs := by
+    unfold intStr; split <;> simp
+  rw [hint, hev]
+  refine ⟨rfl, ?_⟩
+  rw [stripCommas_append, commaBody_strip _ h44]
+  split <;> simp [stripCommas]
+
+example : commaNum (intStr (-1234567)) = [45, 49, 44, 50, 51, 52, 44, 53, 54, 55] := by decide +kernel
+
+/-- CONTRAST — **why the Unmarshal entry points call `txt.Unquote`**: `FromString` itself rejects every text that begins with a
+    double quote (both types, whatever follows, exponent branch included), so the variant of `UnmarshalText` /
+    `UnmarshalJSON` without the unquoting fails on the quoted rendering of EVERY value, which `roundtrip_configsX` shows
+    the real one parses back -/
+theorem quoted_text_needs_unquote (p : Nat) (m : Int) (u : Str) :
+    fromStrX64 p m (34 :: u) = .err ∧ fromStrX128 p m (34 :: u) = .err :=
+  fromStrX_quote p m u
+
+/-- **canonical = unique**: `String()` is THE canonical literal of its value.  Any literal of canonical shape — no '+',
+    at least one integer digit and no leading zero (a lone "0" excepted), fraction absent or non-empty, of at most `p`
+    digits and not ending in '0', '-' only in front of a non-zero value — is `String()` of the value it denotes; so two
+    different canonical texts never denote the same value, and `String()` never prints anything else -/
+theorem toString_is_the_canonical_literal (p : Nat) (sg : Sign) (ip : Str) (fo : Option Str)
+    (h : IsCanonical p sg ip fo) : toStr (10^p) (litVal p sg ip fo) = litText sg ip fo :=
+  toStr_canonical_unique p sg ip fo h
+
+/-- non-vacuity: "-0.05" is canonical for two places (value −5); "-0.50" and "-0" are not (trailing zero; minus on zero) -/
+example : IsCanonical 2 .minus [48] (some [48, 53]) ∧ litVal 2 .minus [48] (some [48, 53]) = -5 ∧
+    ¬ IsCanonical 2 .minus [48] (some [53, 48]) ∧ ¬ IsCanonical 2 .minus [48] none := by
+  refine ⟨⟨by decide, by decide, by decide, by decide, ?_, by decide⟩, by decide, ?_, ?_⟩
+  · intro fp hfp
+    cases hfp
+    exact ⟨by decide, by decide, by decide, by decide⟩
+  · intro h
+    exact (h.frac _ rfl).2.2.2 (by decide)
+  · intro h
+    exact h.negNonzero rfl (by decide)
 
 /-! ## non-vacuity -/
 example : fits64 (-(2^63)) = true ∧ fits128 (-(2^127)) = true := by decide
